@@ -6,7 +6,6 @@
 package main
 
 import (
-	"sync/atomic"
 	"crypto/sha256"
 	"encoding/hex"
 	"fmt"
@@ -18,6 +17,7 @@ import (
 	"sort"
 	"strings"
 	"sync"
+	"sync/atomic"
 
 	"verif/internal/regen"
 	"verif/internal/vf"
@@ -26,20 +26,30 @@ import (
 const okSpec = "openapi: 3.0.3\ninfo: {title: t, version: \"1\"}\npaths:\n  /a:\n    get:\n      responses: {\"200\": {description: ok}}\n"
 
 var fixtures = map[string]string{
-	"ok.yml":                  okSpec,
-	"bad_yaml.yml":            "openapi: [\n",
-	"bad_json.json":           `{"openapi": "3.0.3", `,
-	"invalid_spec.yml":        "openapi: 3.0.3\ninfo: {title: t, version: \"1\"}\npaths:\n  a:\n    get:\n      responses: {\"200\": {description: ok}}\n",
-	"dup_op.yml":              "openapi: 3.0.3\ninfo: {title: t, version: \"1\"}\npaths:\n  /a:\n    get:\n      operationId: x\n      responses: {\"200\": {description: ok}}\n  /b:\n    get:\n      operationId: x\n      responses: {\"200\": {description: ok}}\n",
-	"notimpl.yml":             "openapi: 3.0.3\ninfo: {title: t, version: \"1\"}\npaths:\n  /a:\n    get:\n      parameters: [{name: q, in: query, style: spaceDelimited, schema: {type: array, items: {type: string}}}]\n      responses: {\"200\": {description: ok}}\n",
-	"ir_err.yml":              "openapi: 3.0.3\ninfo: {title: t, version: \"1\"}\npaths:\n  /a:\n    get:\n      parameters: [{name: q, in: query, schema: {type: integer, default: \"x\"}}]\n      responses: {\"200\": {description: ok}}\n",
-	"route_conflict.yml":      "openapi: 3.0.3\ninfo: {title: t, version: \"1\"}\npaths:\n  /a/{x}{y}:\n    get:\n      parameters: [{name: x, in: path, required: true, schema: {type: string}},{name: y, in: path, required: true, schema: {type: string}}]\n      responses: {\"200\": {description: ok}}\n",
-	"dangling_ref.yml":        "openapi: 3.0.3\ninfo: {title: t, version: \"1\"}\npaths:\n  /a:\n    get:\n      responses: {\"200\": {$ref: '#/components/responses/Nope'}}\n",
-	"cfg_bad_yaml.yml":        "generator: [\n",
-	"cfg_unknown_field.yml":   "nope: 1\n",
-	"cfg_unknown_feature.yml": "generator:\n  features:\n    enable: [\"nope\"]\n",
-	"cfg_expand.yml":          "expand: tgt/openapi_expanded_gen.yml\n",
-	"cfg_ok.yml":              "generator:\n  features:\n    disable_all: true\n    enable: [\"paths/client\"]\n",
+	"ok.yml":                           okSpec,
+	"bad_yaml.yml":                     "openapi: [\n",
+	"bad_json.json":                    `{"openapi": "3.0.3", `,
+	"invalid_spec.yml":                 "openapi: 3.0.3\ninfo: {title: t, version: \"1\"}\npaths:\n  a:\n    get:\n      responses: {\"200\": {description: ok}}\n",
+	"dup_op.yml":                       "openapi: 3.0.3\ninfo: {title: t, version: \"1\"}\npaths:\n  /a:\n    get:\n      operationId: x\n      responses: {\"200\": {description: ok}}\n  /b:\n    get:\n      operationId: x\n      responses: {\"200\": {description: ok}}\n",
+	"notimpl.yml":                      "openapi: 3.0.3\ninfo: {title: t, version: \"1\"}\npaths:\n  /a:\n    get:\n      parameters: [{name: q, in: query, style: spaceDelimited, schema: {type: array, items: {type: string}}}]\n      responses: {\"200\": {description: ok}}\n",
+	"ir_err.yml":                       "openapi: 3.0.3\ninfo: {title: t, version: \"1\"}\npaths:\n  /a:\n    get:\n      parameters: [{name: q, in: query, schema: {type: integer, default: \"x\"}}]\n      responses: {\"200\": {description: ok}}\n",
+	"route_conflict.yml":               "openapi: 3.0.3\ninfo: {title: t, version: \"1\"}\npaths:\n  /a/{x}{y}:\n    get:\n      parameters: [{name: x, in: path, required: true, schema: {type: string}},{name: y, in: path, required: true, schema: {type: string}}]\n      responses: {\"200\": {description: ok}}\n",
+	"dangling_ref.yml":                 "openapi: 3.0.3\ninfo: {title: t, version: \"1\"}\npaths:\n  /a:\n    get:\n      responses: {\"200\": {$ref: '#/components/responses/Nope'}}\n",
+	"refused_resp_form.yml":            "openapi: 3.0.3\ninfo: {title: t, version: \"1\"}\npaths:\n  /a:\n    post:\n      responses: {\"200\": {description: ok, content: {\"application/x-www-form-urlencoded\": {schema: {type: object, properties: {a: {type: string}}}}}}}\n",
+	"refused_resp_form_param.yml":      "openapi: 3.0.3\ninfo: {title: t, version: \"1\"}\npaths:\n  /a:\n    post:\n      responses: {\"200\": {description: ok, content: {\"application/x-www-form-urlencoded; charset=utf-8\": {schema: {type: object, properties: {a: {type: string}}}}}}}\n",
+	"refused_resp_form_case.yml":       "openapi: 3.0.3\ninfo: {title: t, version: \"1\"}\npaths:\n  /a:\n    post:\n      responses: {\"200\": {description: ok, content: {\"Multipart/Form-Data\": {schema: {type: object, properties: {a: {type: string}}}}}}}\n",
+	"refused_resp_multipart_param.yml": "openapi: 3.0.3\ninfo: {title: t, version: \"1\"}\npaths:\n  /a:\n    post:\n      responses: {\"default\": {description: ok, content: {\"multipart/form-data; boundary=x\": {schema: {type: object, properties: {a: {type: string}}}}}}}\n",
+	"refused_req_xml.yml":              "openapi: 3.0.3\ninfo: {title: t, version: \"1\"}\npaths:\n  /a:\n    post:\n      requestBody: {content: {\"application/xml\": {schema: {type: object, properties: {a: {type: string}}}}}}\n      responses: {\"200\": {description: ok}}\n",
+	"refused_req_xml_param.yml":        "openapi: 3.0.3\ninfo: {title: t, version: \"1\"}\npaths:\n  /a:\n    post:\n      requestBody: {content: {\"Application/XML; charset=utf-8\": {schema: {type: object, properties: {a: {type: string}}}}}}\n      responses: {\"200\": {description: ok}}\n",
+	"refused_resp_html_object.yml":     "openapi: 3.0.3\ninfo: {title: t, version: \"1\"}\npaths:\n  /a:\n    post:\n      responses: {\"200\": {description: ok, content: {\"text/html; charset=utf-8\": {schema: {type: object}}}}}\n",
+	"refused_sum.yml":                  "openapi: 3.0.3\ninfo: {title: t, version: \"1\"}\npaths:\n  /a:\n    post:\n      requestBody: {content: {\"application/json\": {schema: {oneOf: [{type: object, properties: {a: {type: string}}}, {type: object, properties: {a: {type: string}}}]}}}}\n      responses: {\"200\": {description: ok}}\n",
+	"refused_oidc.yml":                 "openapi: 3.0.3\ninfo: {title: t, version: \"1\"}\npaths:\n  /a:\n    post:\n      security: [{S: []}]\n      responses: {\"200\": {description: ok}}\ncomponents:\n  securitySchemes:\n    S: {type: openIdConnect, openIdConnectUrl: \"https://x/y\"}\n",
+	"refused_cookie_object.yml":        "openapi: 3.0.3\ninfo: {title: t, version: \"1\"}\npaths:\n  /a:\n    post:\n      parameters: [{name: c, in: cookie, explode: true, schema: {type: object, properties: {a: {type: string}}}}]\n      responses: {\"200\": {description: ok}}\n",
+	"cfg_bad_yaml.yml":                 "generator: [\n",
+	"cfg_unknown_field.yml":            "nope: 1\n",
+	"cfg_unknown_feature.yml":          "generator:\n  features:\n    enable: [\"nope\"]\n",
+	"cfg_expand.yml":                   "expand: tgt/openapi_expanded_gen.yml\n",
+	"cfg_ok.yml":                       "generator:\n  features:\n    disable_all: true\n    enable: [\"paths/client\"]\n",
 }
 
 type stage struct {
@@ -69,6 +79,19 @@ var stages = []stage{
 	{"invalid spec (duplicate operationId)", []string{"dup_op.yml"}, "duplicate operationId"},
 	{"invalid spec (dangling $ref)", []string{"dangling_ref.yml"}, "Nope"},
 	{"not implemented feature", []string{"notimpl.yml"}, "is not implemented yet"},
+	// documents the generator refuses as not implemented / not generatable, the same construct in
+	// several spellings of its media type (canonical, with a parameter, in another letter case): the
+	// refusal has to come before anything is written whichever way the document spells it
+	{"refused: response with form content only", []string{"refused_resp_form.yml"}, "unsupported content types"},
+	{"refused: response with form content only (media type with a parameter)", []string{"refused_resp_form_param.yml"}, "unsupported content types"},
+	{"refused: response with form content only (media type in another case)", []string{"refused_resp_form_case.yml"}, "unsupported content types"},
+	{"refused: default response with multipart content only (boundary parameter)", []string{"refused_resp_multipart_param.yml"}, "unsupported content types"},
+	{"refused: request body of an unsupported media type", []string{"refused_req_xml.yml"}, "unsupported content types"},
+	{"refused: request body of an unsupported media type (parameter, case)", []string{"refused_req_xml_param.yml"}, "unsupported content types"},
+	{"refused: object as text/html response", []string{"refused_resp_html_object.yml"}, "unsupported content types"},
+	{"refused: sum without discriminating members", []string{"refused_sum.yml"}, "failed to infer fields discriminator"},
+	{"refused: openIdConnect security", []string{"refused_oidc.yml"}, "openIdConnect security"},
+	{"refused: exploded object cookie parameter", []string{"refused_cookie_object.yml"}, "style:explode combination"},
 	{"IR build error", []string{"ir_err.yml"}, "default value is string"},
 	{"route conflict", []string{"route_conflict.yml"}, "two parameters in a row"},
 	{"none (success)", []string{"ok.yml"}, ""},
